@@ -26,9 +26,9 @@ Theorem mul_div_cancel h c k k' x y : c <> 0 -> Forall not_inf (ah_missed h) ->
   ah_freq y = ah_freq h /\ ah_err2 y = ah_err2 h /\ ah_missed y = ah_missed h /\ ah_axes y = ah_axes h.
 Proof.
   intros Hc Hm H1 H2. unfold imul_k in H1. destruct (kind_dt k); [|discriminate].
-  destruct (negb (nonneg _)); [discriminate|]. injection H1 as <-.
+  destruct (_ || negb (nonneg _)); [discriminate|]. injection H1 as <-.
   unfold idiv_k in H2. destruct (kind_dt k'); [|discriminate]. cbn [coerce ah_freq ah_err2 ah_missed ah_axes ah_dt ah_stats ah_keep] in H2.
-  destruct (negb (nonneg _)); [discriminate|]. injection H2 as <-. cbn [ah_freq ah_err2 ah_missed ah_axes].
+  destruct (_ || negb (nonneg _)); [discriminate|]. injection H2 as <-. cbn [ah_freq ah_err2 ah_missed ah_axes].
   repeat split.
   - apply map_mul_div; auto.
   - apply map_mul_div2; auto.
@@ -40,22 +40,22 @@ Qed.
 Theorem mul_mul h c1 c2 k1 k2 x y : imul_k h c1 k1 = Ok x -> imul_k x c2 k2 = Ok y ->
   ah_freq y = map (Qcmult (c2 * c1)) (ah_freq h) /\ ah_err2 y = map (Qcmult ((c2 * c1) * (c2 * c1))) (ah_err2 h).
 Proof.
-  intros H1 H2. unfold imul_k in *. destruct (kind_dt k1); [|discriminate]. destruct (negb (nonneg _)); [discriminate|].
+  intros H1 H2. unfold imul_k in *. destruct (kind_dt k1); [|discriminate]. destruct (_ || negb (nonneg _)); [discriminate|].
   injection H1 as <-. destruct (kind_dt k2); [|discriminate]. cbn [coerce ah_freq ah_err2 ah_missed ah_axes ah_dt ah_stats ah_keep] in H2.
-  destruct (negb (nonneg _)); [discriminate|]. injection H2 as <-. cbn [ah_freq ah_err2]. split; rewrite map_map; apply map_ext; intros; ring.
+  destruct (_ || negb (nonneg _)); [discriminate|]. injection H2 as <-. cbn [ah_freq ah_err2]. split; rewrite map_map; apply map_ext; intros; ring.
 Qed.
 
 (** scaling is linear on the total *)
 Theorem mul_total h c k x : imul_k h c k = Ok x -> ah_total x = c * ah_total h.
 Proof.
-  unfold imul_k. destruct (kind_dt k); [|discriminate]. destruct (negb (nonneg _)); [discriminate|].
+  unfold imul_k. destruct (kind_dt k); [|discriminate]. destruct (_ || negb (nonneg _)); [discriminate|].
   intros H. injection H as <-. unfold ah_total. cbn [ah_freq coerce]. apply sumq_scale.
 Qed.
 
 (** normalize: dividing by the total gives total 1, with unchanged proportions *)
 Theorem normalize_total_one h k x : ah_total h <> 0 -> idiv_k h (ah_total h) k = Ok x -> ah_total x = 1.
 Proof.
-  intros Ht. unfold idiv_k. destruct (kind_dt k); [|discriminate]. destruct (negb (nonneg _)); [discriminate|].
+  intros Ht. unfold idiv_k. destruct (kind_dt k); [|discriminate]. destruct (_ || negb (nonneg _)); [discriminate|].
   intros H. injection H as <-. unfold ah_total. cbn [ah_freq coerce]. rewrite sumq_div. unfold ah_total in Ht. field. exact Ht.
 Qed.
 
@@ -83,13 +83,14 @@ Proof.
   f_equal. field. split; apply pos_neq0; auto.
 Qed.
 
-(** refusals: an unsupported scalar type, or a negative factor on a positive content *)
-Theorem negative_factor_refused h c k d x : kind_dt k = Some d -> c < 0 -> In x (ah_freq h) -> 0 < x ->
-  imul_k h c k = Err EValue.
+(** refusals: an unsupported scalar type, or a negative factor — whatever the contents (also when they are all zero) *)
+Theorem negative_factor_refused h c k d : kind_dt k = Some d -> c < 0 -> imul_k h c k = Err EValue.
 Proof.
-  intros Hk Hc Hin Hx. unfold imul_k. rewrite Hk.
-  assert (E : nonneg (map (Qcmult c) (ah_freq (coerce h d))) = false).
-  { unfold nonneg. cbn [coerce ah_freq]. apply not_true_is_false. intros F. rewrite forallb_forall in F.
-    specialize (F (c * x) (in_map _ _ _ Hin)). apply Qcleb_le in F. qc2q. nra. }
-  rewrite E. reflexivity.
+  intros Hk Hc. unfold imul_k. rewrite Hk.
+  replace (Qcltb c 0) with true by (symmetry; apply Qcltb_lt; exact Hc). reflexivity.
+Qed.
+Theorem negative_divisor_refused h c k d : kind_dt k = Some d -> c < 0 -> idiv_k h c k = Err EValue.
+Proof.
+  intros Hk Hc. unfold idiv_k. rewrite Hk.
+  replace (Qcltb c 0) with true by (symmetry; apply Qcltb_lt; exact Hc). reflexivity.
 Qed.
